@@ -342,6 +342,34 @@ func checkLoopAccept(c *core.Ctx, fn *ssa.Function, subject string, want an.Set,
 		acc = acc.Union(s)
 	}
 	c.CountPaths(n)
+	// a loop that carries its verdict in a flag tested by the loop condition (`for i := 0; ok && i < n; i++
+	// { ok = isHex(s[i]) }`): every iteration reaches the latch; it *continues* iff the flag it leaves is true
+	if acc.Equal(an.Full()) {
+		if iff, isIf := an.LastInstr(h).(*ssa.If); isIf {
+			if flag, isPhi := iff.Cond.(*ssa.Phi); isPhi && flag.Block() == h {
+				if paths, okp := an.IterPaths(h, func(b *ssa.BasicBlock) bool { return len(b.Succs) == 0 }, 1024); okp {
+					byFlag := an.Empty()
+					for _, p := range paths {
+						if len(p) < 2 || p[len(p)-1] != h {
+							continue
+						}
+						var next ssa.Value
+						for i, pb := range h.Preds {
+							if pb == p[len(p)-2] {
+								next = flag.Edges[i]
+							}
+						}
+						if next == nil {
+							continue
+						}
+						t, _ := fr.BoolMeaning(next, p[:len(p)-1], fr.PathMeaning(p[:len(p)-1], nil), 0)
+						byFlag = byFlag.Union(t)
+					}
+					acc = byFlag
+				}
+			}
+		}
+	}
 	c.Check(acc.Equal(want), nil, fname(c, fn), "domain("+what+")", c.P.Pos(def.Instrs[0].Pos()),
 		fmt.Sprintf("iteration continues iff %s ∈ %s", subject, acc), fmt.Sprintf("iteration continues for %s ∈ %s, want %s", subject, acc, want))
 }
